@@ -262,6 +262,11 @@ def jobs(tier, seed):
                   {"shapes": [F([S(1, tags=["t1"]), R([O(1, [(2, [])])], tags=["t2"])], tags=["t0"])],
                    "opts": {"hooks": True, "fault": True, "stop": "sym", "out_dom": {"*": [0, 1]}}},
                   reach=REACH, min_paths=20, cost=6000, validate=100))
+    # Ctrl-C inside a hook: the run is aborted, yet every loaded feature is still accounted for
+    js.append(Job("run.hook-kbdint", "props.c14:h_summary_run",
+                  {"shapes": [F([S(1), S(1)]), F([S(1)]), F([R([S(1)])])],
+                   "opts": {"hooks": True, "fault": True, "fault_kbd": True, "out_dom": {"*": [0, 1]}, "undef": False}},
+                  reach=REACH[:4], min_paths=20, cost=6000, validate=100))
     js.append(Job("run.select", "props.c14:h_summary_run",
                   {"shapes": [F([S(1), O(1, [(1, []), (1, [])]), R([S(1)])])],
                    "opts": {"select": True, "dry_run": "sym", "out_dom": {"*": [0, 1]}}},
